@@ -70,7 +70,7 @@ def _default_summaries(ctx):
 
 def run(ctx):
     for fn in (r1_escape_parse, r2_containment, r3_style_dispatch, r4_collection_continues, r5_variants, r6_directives_checked_at_parse_time,
-               r7_error_constructor_total, r8_line_table_covers_ast_lines):
+               r7_error_constructor_total, r8_line_table_covers_ast_lines, r2b_containment_handler_is_total, r9_lookahead_in_bounds):
         ctx.rep.rule(fn, ctx)
 
 
@@ -447,6 +447,18 @@ def r3_style_dispatch(ctx):
             facts = graph.guard_facts(dom, n)
             ok = any(isinstance(fa.expr, ast.Compare) and is_name(fa.expr.left, 'n_found') and fa.polarity is True for fa in facts)
             rep.ob('C14.R3', ctx.loc(f, n.ast), 'google attempt: raise', ok, 're-raised only if examples were already produced' if ok else 'the google attempt re-raises unconditionally (freeform fallback never runs)', anchor=q)
+            # ... and as soon as ONE was produced: with the error swallowed after a yielded example the broken docstring gives neither a warning nor the freeform fallback
+            for fa in facts:
+                e = fa.expr
+                if isinstance(e, ast.Compare) and is_name(e.left, 'n_found') and len(e.ops) == 1 and isinstance(e.comparators[0], ast.Constant) and isinstance(e.comparators[0].value, int):
+                    c0 = e.comparators[0].value
+                    def tv(v, op=e.ops[0], c0=c0):
+                        return {ast.Gt: v > c0, ast.GtE: v >= c0, ast.Lt: v < c0, ast.LtE: v <= c0, ast.Eq: v == c0, ast.NotEq: v != c0}.get(type(op))
+                    need(tv(0) is not None, 'C14.R3: comparison of the example counter not recognised')
+                    good = (tv(1) == fa.polarity) and (tv(0) != fa.polarity) and (tv(2) == fa.polarity)
+                    rep.ob('C14.R3', ctx.loc(f, e), 'raise iff %s%s' % ('' if fa.polarity else 'not ', ctx.src(e)), good,
+                           're-raised exactly when at least one example was produced' if good else
+                           'with exactly one example already produced the error of a later block is swallowed: no warning, no freeform fallback, the good example is silently all there is', anchor=q)
     # every parse() call reachable from the style parsers happens while their generator is driven (inside R2's try)
     reach = _reachable_funcs(ctx, [ctx.func(PDE)])
     parse_callers = [fn for fn in reach if any(isinstance(c, ast.Call) and ctx.res.resolve_call(fn, c)[0] in ('repo', 'method') and
@@ -730,12 +742,98 @@ def r6_directives_checked_at_parse_time(ctx):
     run_as(ctx, c04.r8_break_placement, 'C04.R8', 'C14.R6')
 
 
+def r2b_containment_handler_is_total(ctx):
+    """the handler that downgrades a parse error to a warning must not fail itself: (i) str.format is only called on a template written in the
+    source -- once text of the docstring / of the error was appended, braces in it are replacement fields (KeyError / IndexError / ValueError);
+    (ii) ensure_unicode (raises on None) is only handed a value that the guarding test has just found non-empty"""
+    rep = ctx.rep
+    f = ctx.func(PDE)
+    g = ctx.cfg(f)
+    rd = ctx.rd(f)
+    dom = ctx.dom(g, g.entry)
+    hnodes = [n for n in g.nodes if not n.dup and any(fr.kind == 'try' and getattr(fr, 'handler', None) is not None for fr in n.frames)]
+    n_fmt = n_eu = 0
+    for n in hnodes:
+        for c in node_calls(n):
+            if isinstance(c.func, ast.Attribute) and c.func.attr == 'format':
+                recv = c.func.value
+                if isinstance(recv, ast.Constant):
+                    n_fmt += 1
+                    continue
+                if isinstance(recv, ast.Name):
+                    n_fmt += 1
+                    defs = rd.at(n, recv.id)
+                    lit = bool(defs) and all(d.kind == 'assign' and isinstance(d.value, ast.AST) and all(isinstance(x, (ast.Constant, ast.BinOp, ast.Add, ast.JoinedStr)) for x in ast.walk(d.value)) for d in defs)
+                    rep.ob('C14.R2b', ctx.loc(f, c), ctx.src(c, 70), lit,
+                           'the template is a literal of the source' if lit else
+                           '`%s` is used as a format template after text was appended to it (%s): a brace in the failing docstring or in the error text is read as a replacement field, and '
+                           'KeyError / IndexError / ValueError escapes the handler -- no warning, collection of the module aborts' % (recv.id, sorted({d.kind for d in defs})), anchor=PDE)
+            if (isinstance(c.func, ast.Attribute) and c.func.attr == 'ensure_unicode') or is_name(c.func, 'ensure_unicode'):
+                n_eu += 1
+                arg = ' '.join(ast.unparse(c.args[0]).split()) if c.args else ''
+                facts = graph.guard_facts(dom, n)
+                ok = any(fa.polarity is True and isinstance(fa.expr, ast.AST) and ' '.join(ast.unparse(fa.expr).split()) in (arg, arg + ' is not None') for fa in facts) or \
+                    any(fa.polarity is False and isinstance(fa.expr, ast.AST) and ' '.join(ast.unparse(fa.expr).split()) == arg + ' is None' for fa in facts)
+                rep.ob('C14.R2b', ctx.loc(f, c), ctx.src(c, 70), ok,
+                       'the argument was just tested to be non-empty' if ok else
+                       'ensure_unicode(%s) is not guarded by a test of that same value (guards: %s): for an error whose %s is None it raises ValueError inside the handler' %
+                       (arg, fmt_facts([fa for fa in facts if fa.polarity in (True, False)][-3:]), arg.split('.')[-1]), anchor=PDE)
+    rep.floor('C14.R2b', 'format calls in the containment handler', n_fmt, 2)
+    rep.floor('C14.R2b', 'ensure_unicode calls in the containment handler', n_eu, 1)
+
+
+def r9_lookahead_in_bounds(ctx):
+    """BOUNDS: split_google_docblocks looks one line ahead of a block label.  Every subscript `L[i + k]` over the per-line lists must lie under a
+    guard `i + k < len(L)` (strict): with `<=` the label on the very last line of a docstring indexes past the end -- IndexError out of collection"""
+    rep = ctx.rep
+    f = ctx.func('xdoctest.docstr.docscrape_google.split_google_docblocks')
+    g = ctx.cfg(f)
+    dom = ctx.dom(g, g.entry)
+    n_sub = 0
+    for n in g.nodes:
+        if n.dup or n.kind not in ('stmt', 'test') or not isinstance(n.ast, ast.AST):
+            continue
+        for x in ast.walk(n.ast):
+            if not (isinstance(x, ast.Subscript) and isinstance(x.ctx, ast.Load) and isinstance(x.slice, ast.BinOp) and isinstance(x.slice.op, ast.Add)
+                    and isinstance(x.slice.right, ast.Constant) and isinstance(x.slice.right.value, int) and x.slice.right.value >= 1 and isinstance(x.slice.left, ast.Name)):
+                continue
+            n_sub += 1
+            idx = ' '.join(ast.unparse(x.slice).split())
+            facts = [fa for fa in graph.guard_facts(dom, n) + graph.short_circuit_facts(n.ast, x) if fa.polarity in (True, False) and isinstance(fa.expr, ast.Compare)]
+            verdict = None
+            for fa in facts:
+                e = fa.expr
+                if len(e.ops) != 1 or ' '.join(ast.unparse(e.left).split()) != idx:
+                    continue
+                rhs = e.comparators[0]
+                if not (isinstance(rhs, ast.Call) and is_name(rhs.func, 'len')):
+                    continue
+                op = type(e.ops[0])
+                strict = (op is ast.Lt and fa.polarity is True) or (op is ast.GtE and fa.polarity is False)
+                loose = (op is ast.LtE and fa.polarity is True) or (op is ast.Gt and fa.polarity is False)
+                if strict:
+                    verdict = True
+                elif loose and verdict is None:
+                    verdict = False
+            need(verdict is not None, 'C14.R9: no bound on the look-ahead index of %s was recognised' % ctx.src(x))
+            rep.ob('C14.R9', ctx.loc(f, x), ctx.src(x), verdict,
+                   'guarded by `%s < len(...)`' % idx if verdict else
+                   'the look-ahead index %s is only bounded by `<= len(...)`: a block label on the last line of the docstring reads one element past the end (IndexError, not contained for google style)' % idx,
+                   anchor=f.qualname)
+    rep.floor('C14.R9', 'look-ahead subscripts in split_google_docblocks', n_sub, 2)
+
+
 # ---------------------------------------------------------------------------
 from ..selftest import fire, silent      # noqa: E402
 
 PA = 'xdoctest/parser.py'
 CO = 'xdoctest/core.py'
 VARIANTS = [
+    fire('warning-text-formatted-after-user-text-was-appended', 'C14.R2b', ('xdoctest/core.py', "        msg = msg.format(callname, modpath, lineno, repr(ex))\n        if isinstance(ex, exceptions.DoctestParseError):\n", "        if isinstance(ex, exceptions.DoctestParseError):\n"),
+         ('xdoctest/core.py', "        # Always warn when something bad is happening.\n", "        msg = msg.format(callname, modpath, lineno, repr(ex))\n        # Always warn when something bad is happening.\n")),
+    fire('caret-help-guarded-by-another-attribute', 'C14.R2b', ('xdoctest/core.py', "                if ex.orig_ex.text:\n", "                if ex.orig_ex.msg:\n")),
+    fire('auto-style-swallows-error-after-one-example', 'C14.R3', ('xdoctest/core.py', "        if n_found > 0:\n            raise\n", "        if n_found > 1:\n            raise\n")),
+    fire('lookahead-bound-not-strict', 'C14.R9', ('xdoctest/docstr/docscrape_google.py', "            if line_num + 1 < len(docstr_lines):\n", "            if line_num + 1 <= len(docstr_lines):\n")),
     fire('parse-error-reads-syntaxerror-msg', 'C14.R7', ('xdoctest/exceptions.py', "        super(DoctestParseError, self).__init__(msg)\n", "        if orig_ex is not None:\n            msg = '{}: {}'.format(msg, orig_ex.msg)\n        super(DoctestParseError, self).__init__(msg)\n")),
     silent('parse-error-reads-msg-of-syntaxerrors-only', ('xdoctest/exceptions.py', "        super(DoctestParseError, self).__init__(msg)\n", "        if isinstance(orig_ex, SyntaxError):\n            msg = '{}: {}'.format(msg, orig_ex.msg)\n        super(DoctestParseError, self).__init__(msg)\n")),
     silent('parse-error-formats-the-exception', ('xdoctest/exceptions.py', "        super(DoctestParseError, self).__init__(msg)\n", "        if orig_ex is not None:\n            msg = '{}: {}'.format(msg, orig_ex)\n        super(DoctestParseError, self).__init__(msg)\n")),
